@@ -323,6 +323,80 @@ fn judge_changes(op: Op, hostile: &str, changes: &[String], upload_id: &str) -> 
     v
 }
 
+/// (iii) Histories of *legitimate* operations. One operation at a time from a fixed store cannot see a fault that a previous
+/// operation prepared (two paths sharing one inode, a stale bookkeeping file): all sequences of `depth` operations over
+/// {put, delete, copy} x {bucket-a, bucket-b} x {a, secret, fresh} run on one live tree (never re-materialised inside a
+/// sequence, so what the file system shares stays shared), and after EVERY step the tree may differ from the step before only
+/// inside the bucket the operation is addressed to (a copy: its destination) and in that bucket's own bookkeeping files.
+fn histories(acc: &mut Acc, depth: usize) -> usize {
+    #[derive(Clone, Debug)]
+    enum H {
+        Put(&'static str, &'static str, &'static [u8]),
+        Delete(&'static str, &'static str),
+        Copy(&'static str, &'static str, &'static str, &'static str),
+    }
+    let slots: Vec<(&'static str, &'static str)> = ["bucket-a", "bucket-b"].into_iter().flat_map(|b| ["a", "secret", "fresh"].into_iter().map(move |k| (b, k))).collect();
+    let mut ops: Vec<H> = Vec::new();
+    for &(b, k) in &slots {
+        ops.push(H::Put(b, k, b"HISTORY-PUT-1"));
+        ops.push(H::Delete(b, k));
+        for &(b2, k2) in &slots {
+            if (b, k) != (b2, k2) {
+                ops.push(H::Copy(b, k, b2, k2));
+            }
+        }
+    }
+    // sequences as index vectors; the first operation spans the parallel work items
+    let n_ops = ops.len();
+    let mut seqs: Vec<Vec<usize>> = (0..n_ops).map(|i| vec![i]).collect();
+    for _ in 1..depth {
+        seqs = seqs.into_iter().flat_map(|s| (0..n_ops).map(move |i| { let mut t = s.clone(); t.push(i); t })).collect();
+    }
+    let n = seqs.len();
+    let pristine = store();
+    let base = snapshot(&pristine.top);
+    drop(pristine);
+    par_items(acc, &seqs, |a, si, seq| {
+        let label = seq.iter().map(|i| format!("{:?}", ops[*i])).collect::<Vec<_>>().join(" ; ");
+        let id = || format!("history/{label}");
+        if !a.selected(&id) {
+            return;
+        }
+        let scratch = Scratch::new("c17h");
+        let top = scratch.path.clone();
+        materialise(&base, &top);
+        let fs = FileSystem::new(top.join("root")).expect("fs");
+        let mut before = snapshot(&top);
+        for (step, oi) in seq.iter().enumerate() {
+            a.eval();
+            let op = &ops[*oi];
+            let who = Some("alice");
+            let (addressed, code) = block_on(async {
+                match op {
+                    H::Put(b, k, c) => (*b, code(&fs.put_object(req(PutObjectInput { bucket: (*b).into(), key: (*k).into(), body: Some(blob_of(c, 1)), content_length: Some(c.len() as i64), ..gen_base() }, who)).await)),
+                    H::Delete(b, k) => (*b, code(&fs.delete_object(req(DeleteObjectInput { bucket: (*b).into(), key: (*k).into(), ..gen_base() }, who)).await)),
+                    H::Copy(sb, sk, db, dk) => (*db, code(&fs.copy_object(req(CopyObjectInput { bucket: (*db).into(), key: (*dk).into(), copy_source: CopySource::Bucket { bucket: (*sb).into(), key: (*sk).into(), version_id: None }, ..gen_base() }, who)).await)),
+                }
+            });
+            let after = snapshot(&top);
+            let changes = diff(&before, &after);
+            a.outcome(&format!("history step: {} / {}", if code == "ok" { "ok" } else { "refused" }, if changes.is_empty() { "no change" } else { "changed" }));
+            for c in &changes {
+                let path = c.split_once(' ').map_or("", |x| x.1);
+                let rel = path.strip_prefix("root/").unwrap_or(path);
+                let inside = path.starts_with("root/") && (rel == addressed || rel.starts_with(&format!("{addressed}/")) || rel.starts_with(&format!(".bucket-{}.", b64(addressed))));
+                if !inside {
+                    let kind = if !path.starts_with("root") { "outside-root-changed" } else if rel.starts_with("bucket-") { "other-bucket-changed" } else { "bookkeeping-changed" };
+                    a.fail(&format!("C17/{kind}/history"), (step * 1_000_000) as u64 + si, id(), format!("step {} ({op:?}, addressed to {addressed}, {code}) of [{label}]: {c}", step + 1), json!({"history": label, "changes": changes}));
+                }
+            }
+            before = after;
+        }
+        a.nontrivial(fnv(id().as_bytes()));
+    });
+    n
+}
+
 pub fn run(ctx: &Ctx) -> (Acc, Report) {
     let mut acc = ctx.acc();
     let keys = hostile_keys(ctx.tier);
@@ -455,12 +529,13 @@ pub fn run(ctx: &Ctx) -> (Acc, Report) {
     // "an operation addressed to one bucket never touches another bucket's objects" under concurrency: all interleavings (at
     // file-system-call granularity, controlled scheduler of C19) of two writers to different objects - the same key in two
     // buckets, the same file name in two directories, two keys - after which each object must hold its own writer's bytes
+    let n_histories = if ctx.replay.as_deref().is_none_or(|r| r.starts_with("history/")) { histories(&mut acc, ctx.tier.pick(2, 3)) } else { 0 };
     let concurrent = if ctx.replay.as_deref().is_none_or(|r| r.contains("/schedule=")) { crate::props::c19::cross_object_schedules(&mut acc, "C17") } else { 0 };
     let rep = Report {
         level: "exploration",
-        rule: format!("{n_keys} hostile strings (all sequences of 1..3 segments (thorough: also all 4-segment sequences over the 7 core symbols) over {{a, ., .., empty, bucket-b, bucket-a2, secret, the real metadata file name of another bucket's object, %2e%2e, %2f, outside, sentinel.txt}} joined by '/', with and without a leading '/', plus 4 deep escapes) x 22 operations at the S3 trait (object get/head/put/delete/delete-objects/copy source/copy destination/list prefix/create-multipart/upload-part-copy source/put-then-get-then-delete; legitimate cross-bucket copies - from another bucket's plain or metadata-bearing object to the string as destination key, and from the string as source key in the other bucket by CopyObject and UploadPartCopy - where the source bucket may be read but neither it nor its bookkeeping may change; hostile upload ids for list-parts/complete/abort/upload-part by a foreign identity incl. the victim's real id and its 8-character prefix; hostile bucket names for create/delete/head bucket), and through S3Service::call for GET/PUT/DELETE/copy in literal, fully percent-encoded and %2e%2e spellings; store: three buckets with marked objects and metadata (one sibling's name has the addressed bucket's name as a proper string prefix), one foreign open upload with a marked part, a marked sentinel tree beside and above the root. Oracle: whole-tree snapshot diff + marker search in everything read back. Plus every interleaving of two concurrent writers to different objects (same key in two buckets, same file name in two directories, two keys of one bucket). Distinct by id."),
+        rule: format!("{n_keys} hostile strings (all sequences of 1..3 segments (thorough: also all 4-segment sequences over the 7 core symbols) over {{a, ., .., empty, bucket-b, bucket-a2, secret, the real metadata file name of another bucket's object, %2e%2e, %2f, outside, sentinel.txt}} joined by '/', with and without a leading '/', plus 4 deep escapes) x 22 operations at the S3 trait (object get/head/put/delete/delete-objects/copy source/copy destination/list prefix/create-multipart/upload-part-copy source/put-then-get-then-delete; legitimate cross-bucket copies - from another bucket's plain or metadata-bearing object to the string as destination key, and from the string as source key in the other bucket by CopyObject and UploadPartCopy - where the source bucket may be read but neither it nor its bookkeeping may change; hostile upload ids for list-parts/complete/abort/upload-part by a foreign identity incl. the victim's real id and its 8-character prefix; hostile bucket names for create/delete/head bucket), and through S3Service::call for GET/PUT/DELETE/copy in literal, fully percent-encoded and %2e%2e spellings; store: three buckets with marked objects and metadata (one sibling's name has the addressed bucket's name as a proper string prefix), one foreign open upload with a marked part, a marked sentinel tree beside and above the root. Oracle: whole-tree snapshot diff (contents and hard-link groups) + marker search in everything read back. Plus all histories of 2 (thorough 3) legitimate put / delete / copy operations across two buckets, judged after every step. Plus every interleaving of two concurrent writers to different objects (same key in two buckets, same file name in two directories, two keys of one bucket). Distinct by id."),
         exhaustive: true,
-        extra: json!({"hostile_strings": n_keys, "concurrent_writer_schedules": concurrent}),
+        extra: json!({"hostile_strings": n_keys, "concurrent_writer_schedules": concurrent, "histories_of_legitimate_operations": n_histories, "history_rule": "all sequences of 2 (thorough 3) operations over {put, delete, copy} x {bucket-a, bucket-b} x {a, secret, fresh} (48 operations) on one live tree; after every step the tree differs from the step before only inside the addressed bucket (a copy: its destination) and its own bookkeeping files; snapshots record which paths share an inode"}),
         assumptions: vec!["symbolic links inside the root are not part of the space".into(), "file contents, not mtimes, are compared".into()],
     };
     (acc, rep)
